@@ -185,6 +185,80 @@ def cli_cases(tier, seed):
     return out
 
 
+# ---------------------------------------------------------------------------------------------------- cross-interpreter layer
+CROSS_TEMPLATES = [
+    "{ALL}EXPORTED_CONSTANT = 42\ndef exported_function(argument_value):\n    kept_local = argument_value * EXPORTED_CONSTANT\n    other_local = kept_local + 1\n    return other_local, kept_local\n"
+    "def private_helper(value_one):\n    inner_result = exported_function(value_one)\n    return inner_result\nprivate_setting = private_helper(2)\nprint(private_helper(2), private_setting, private_setting)\n",
+    "{ALL}class ExportedClass(object):\n    def method(self, first_parameter):\n        kept_local = first_parameter\n        other_local = [kept_local for item_value in range(2)]\n        return other_local\n"
+    "class PrivateClass(ExportedClass):\n    pass\ndef exported_function():\n    return PrivateClass().method(1)\nEXPORTED_CONSTANT = exported_function()\nprivate_setting = (EXPORTED_CONSTANT, EXPORTED_CONSTANT)\nprint(private_setting)\n",
+    "import os.path as private_module\n{ALL}def exported_function(first_parameter, second_parameter=None):\n    def nested_function(third_parameter):\n        kept_local = third_parameter\n        return kept_local, first_parameter\n    other_local = nested_function(second_parameter)\n    return other_local\n"
+    "EXPORTED_CONSTANT = private_module.join('a', 'b')\nprivate_setting = exported_function(EXPORTED_CONSTANT)\nprint(private_setting, private_setting)\n",
+]
+CROSS_ALL = ALL_FORMS + ["", "__all__ = ('{a}', '{b}')\n", "__all__ = ['{a}'] + ['{b}']\n"]
+
+
+def cross_cases(seed, n):
+    r = common.rng(seed, 'C10-cross')
+    out = []
+    for i in range(n):
+        t = CROSS_TEMPLATES[i % len(CROSS_TEMPLATES)]
+        form = CROSS_ALL[(i // len(CROSS_TEMPLATES)) % len(CROSS_ALL)]
+        exported = ['exported_function', 'EXPORTED_CONSTANT'] + (['ExportedClass'] if 'ExportedClass' in t else [])
+        a, b = r.sample(exported, 2)
+        src = t.replace('{ALL}', form.replace('{a}', a).replace('{b}', b))
+        literal_all = form in ALL_FORMS      # a tuple or a computed list is not 'a literal __all__ list': nothing is expected of those forms
+        expect = [a, b] if literal_all else []
+        o = {k: False for k in common.ALL_SWITCHES}
+        o['rename_globals'] = True
+        o['rename_locals'] = True
+        o['hoist_literals'] = r.random() < 0.3
+        pl, pg = [], []
+        if r.random() < 0.6:
+            pl = ['kept_local'] if r.random() < 0.7 else 'kept_local'
+            expect.append('kept_local')
+        if r.random() < 0.5:
+            pg = r.choice([['private_setting'], 'private_setting', ['private_setting', 'absent_name'], [x for x in exported if x not in (a, b)] + ['private_setting']])
+            expect.extend([pg] if isinstance(pg, str) else [x for x in pg if x != 'absent_name'])
+        o['preserve_locals'] = pl
+        o['preserve_globals'] = pg
+        out.append({'op': 'preserved', 'shape': 'cross.%d.%s' % (i % len(CROSS_TEMPLATES), 'all%d' % CROSS_ALL.index(form)), 'src': src, 'opts': o, 'expect': sorted(set(expect)), 'case_timeout': 30})
+    return out
+
+
+def cross_interpreter(run, tier, seed):
+    import os as _os
+    cases = cross_cases(seed, 120 if tier == 'quick' else 1500)
+    for version, py in common.interpreters():
+        if version == '3.12-venv':
+            continue
+
+        def on_x(c, res, version=version):
+            slim = {'shape': c['shape'], 'interpreter': version, 'layer': 'cross', 'opts': c['opts'], 'expect': c['expect']}
+            if 'inconclusive' in res and res.get('status') is None:
+                run.add(slim, res)
+                return
+            out = {'status': res.get('status'), 'violations': [], 'counters': {}, 'nontrivial': []}
+            if res.get('status') == 'skip':
+                out['reason'] = 'cross-interpreter: ' + res.get('reason', 'skip')
+            elif res.get('status') == 'error':
+                out = {'status': 'inconclusive', 'reason': 'cross-interpreter: minify raised (C08)'}
+            else:
+                out['counters'] = {'cross_interpreter_preserve_checks': 1, 'cross_interpreter_names_expected': len(c['expect'])}
+                run.cell('cross_interpreter_preserve', version)
+                if res.get('changed') and c['expect']:
+                    out['nontrivial'] = ['cross|%s|%s' % (version, common.sha(c['src'] + repr(sorted(c['opts'].items(), key=str))))]
+            for v in res.get('violations') or []:
+                out['violations'].append({'mech': None, 'detail': '%s: a name on a preserve list / in __all__ lost its spelling: %s' % (version, v['detail']),
+                                          'witness': {'interpreter': version, 'out': res.get('out')}})
+            if out.get('violations'):
+                slim['src'] = c['src']
+            run.add(slim, out)
+        env = common.clean_env()
+        env['PYTHONPATH'] = common.REPO_SRC
+        pool.run_cases(cases, None, cmd=[py, '-W', 'ignore', _os.path.join(common.VERIF, 'vf', 'compat_worker.py')], env=env, timeout=40, batch=15, on_result=on_x,
+                       deadline=run.deadline, nworkers=4)
+
+
 def main(tier, seed):
     run = runner.Run(PROP, tier, seed)
     cases = gen_cases(tier, seed)
@@ -199,23 +273,28 @@ def main(tier, seed):
     pool.run_cases(light, 'vf.props.C10:run_case', timeout=30, batch=20, on_result=on, deadline=run.deadline)
     pool.run_cases(heavy, 'vf.props.C10:run_case', timeout=60, batch=2, on_result=on, deadline=run.deadline)
 
+    cross_interpreter(run, tier, seed)
+
     def on_cli(c, r):
         run.add({'shape': 'cli', 'pl': c['pl_spelling'], 'pg': c['pg_spelling']}, r)
     pool.run_cases(cli_cases(tier, seed), 'vf.props.C10:run_cli_case', timeout=60, batch=1, on_result=on_cli)
     return run.finish(
         rule='scope shapes, seeds and random modules x preserve_locals / preserve_globals drawn from the names each program really binds (plus '
              'absent names, builtin names, A/B, a bare string instead of a list), literal __all__ in five forms (assign, annotated, augmented, '
-             'reassigned, with undefined names), awslambda(entrypoint), CLI spellings (comma separated, repeated, padded); non-trivial/distinct = '
+             'reassigned, with undefined names), awslambda(entrypoint), CLI spellings (comma separated, repeated, padded); single-role templates x __all__ forms x preserve lists with the minifier running in every other interpreter (identifier counts of the kept names); non-trivial/distinct = '
              'distinct (source, options, lists) where the preserve lists changed the output',
         assumptions=['preserve_locals applies to every non-module scope, preserve_globals / __all__ / entrypoint to module scope'],
-        min_nontrivial=100, required_counters=['matcher_runs', 'preserve_checks', 'preserve_list_changed_the_output', 'awslambda_runs', 'cli_preserve_runs'])
+        min_nontrivial=100, required_counters=['matcher_runs', 'preserve_checks', 'preserve_list_changed_the_output', 'awslambda_runs', 'cli_preserve_runs', 'cross_interpreter_preserve_checks'])
 
 
 def replay(path):
     w = runner.load_replay(path)
     c = dict(w['case'])
     c['prop'] = PROP
-    r = run_case(c) if c.get('shape') != 'cli' else {'status': 'held'}
+    if c.get('layer') == 'cross':
+        r = common.compat_single(c['interpreter'], {'op': 'preserved', 'src': c['src'], 'opts': c['opts'], 'expect': c['expect']})
+    else:
+        r = run_case(c) if c.get('shape') != 'cli' else {'status': 'held'}
     print(json.dumps(r, indent=1, default=repr)[:3000])
     if r.get('violations'):
         print('VIOLATION property=%s replay=%s' % (PROP, path))
